@@ -15,6 +15,14 @@ CHECKS = {
         note="Trusted: the reference model (vf/refmodel.py), SQLite standing for RDB, fakeredis standing for Redis, the in-process gRPC stub standing for the HTTP/2 transport. Depth bounds are small (see evidence).",
         design="3/C01",
     ),
+    "C02": dict(
+        engine="seqx",
+        category="model_checking",
+        technique="bounded-exhaustive enumeration of objective programs (behaviour tuples), catch/callback/hostile-hook variants and the full tell() argument product on real studies, oracle = the clauses of the statement",
+        text="Every tuple of 2 (thorough 3) behaviours from a 54-entry menu (return values of every type and shape incl. strings, containers, numpy, Decimal, huge ints, objects with hostile __float__; exceptions incl. KeyboardInterrupt and TrialPruned before/after reports) runs through Study.optimize on in-memory storage (singles on journal file, gRPC proxy, cached RDB and for 2 objectives), crossed with catch tuples, recording/raising/stopping callbacks and a sampler/pruner that raises in each of 6 hooks; plus tell(values, state, skip_if_finished) on trials in every state. Checked: nothing left RUNNING, COMPLETE iff convertible/NaN-free/one per objective with those floats, FAIL without values, propagation after failing, finished trials untouched by tell, callbacks once per trial, exactly n_trials.",
+        note="Sequential optimize only (n_jobs=1). float-convertibility is computed with float() in the same interpreter. str/bytes returns accept FAIL or COMPLETE-with-that-float.",
+        design="3/C02",
+    ),
     "C03": dict(
         engine="thx",
         category="model_checking",
@@ -87,6 +95,14 @@ CHECKS = {
         note="SciPy is the trusted reference; tolerances are stated in vf/c18.py and the measured maxima are written to the evidence on every run.",
         design="3/C18",
     ),
+    "C20": dict(
+        engine="seqx",
+        category="model_checking",
+        technique="bounded-exhaustive getter x setter-sequence x backend enumeration on a seeded study with deep state digests of the objects read",
+        text="For every getter (storage.get_trial / get_all_trials with and without deepcopy and state filters / get_best_trial / get_all_studies, study.trials / get_trials / _get_trials(use_cache) / best_trial / best_trials / user_attrs / system_attrs, Trial.params / user_attrs / distributions / system_attrs), every setter and every ordered pair of setters (storage setters, Trial.suggest/report/set_user_attr, study.tell/enqueue/add_trial/ask/set_user_attr), on in-memory, journal file, gRPC proxy, cached RDB and raw RDB, from two seeded states (RUNNING trial just asked; RUNNING trial mid-way): the deep digest of the object taken at read time equals its digest after every later write, and scribbling over a deep copy leaves later reads unchanged.",
+        note="Sequential histories (the writer-in-another-thread variant adds nothing for copy-on-write designs and is left to C03's atomicity check); storage-level study-attr getters are not demanded to copy.",
+        design="3/C20",
+    ),
 }
 
 ENGINES = [
@@ -96,7 +112,7 @@ ENGINES = [
          kind_free_text="bounded-exhaustive enumeration of finite argument lattices with exact or reference oracles"),
     dict(name="thx", path="vf/thx.py", serves_properties=["C03"],
          kind_free_text="stateless exploration of thread interleavings of the real code under a controlled scheduler, preemption-bounded"),
-    dict(name="seqx", path="vf/c01.py", serves_properties=["C01", "C06", "C12", "C17"],
+    dict(name="seqx", path="vf/c01.py", serves_properties=["C01", "C02", "C06", "C12", "C17", "C20"],
          kind_free_text="bounded-exhaustive explicit-state search over operation sequences of the real code with reference-model / brute-force oracles"),
 ]
 
